@@ -191,6 +191,26 @@ impl<'a> TokenBasedLuaGenerator<'a> {
                 self.write_symbol(":");
             }
             self.write_identifier(method);
+
+            if let Some(tokens) = &tokens.type_instantiation_tokens {
+                self.write_token(&tokens.first_opening_list);
+                self.write_token(&tokens.second_opening_list);
+
+                let mut types = call.get_method_type_instantiation().enumerate().peekable();
+                while let Some((i, r#type)) = types.next() {
+                    self.write_type(r#type);
+                    if types.peek().is_some() {
+                        if let Some(comma) = tokens.commas.get(i) {
+                            self.write_token(comma);
+                        } else {
+                            self.write_symbol(",");
+                        }
+                    }
+                }
+
+                self.write_token(&tokens.first_closing_list);
+                self.write_token(&tokens.second_closing_list);
+            }
         }
         self.write_arguments(call.get_arguments());
     }
